@@ -156,6 +156,24 @@ PROPS = {
         'level_note': 'Trusted: rustc front end + MIR, the extractor, std HashMap.',
         'technique': 'sibling variant-set agreement + dominator rules over resolved MIR (rustc_private driver)',
     },
+    'C04': {
+        'module': 'c04',
+        'explanation': 'The writer<->reader contract between compiler.rs and vm.rs, decided on MIR: (B1) for each of the 65 opcodes the '
+                       'operand bytes written by every emitter site equal the bytes consumed on every non-error path of its VM arm (path '
+                       'enumeration through handler summaries; OpCode::arg_sizes for opcodes emitted through it); (B2) jump placeholder '
+                       'width = patch arithmetic = VM operand width, same byte order; (B3) every emit_jump result reaches patch_jump/'
+                       'push_break on every error-free path, loops drain their breaks, both handler operands are patched; (B4) a forward '
+                       'interval interpreter proves every usize->u8/u16 cast operand fits on error-free paths; (B5) limits fit their '
+                       'operand widths; (B6) the line table is parallel to the code.',
+        'assumptions': COMMON_ASSUME + ['field bounds in rules/tables/c04_field_bounds.json (each re-verified against its guarded writer)'],
+        'not_decided': ['that one instruction is never reached with two operand-stack heights', 'that operands name existing locals/captures '
+                        '(properties of generated code; a bytecode verifier over compiler output would be a different technique family)'],
+        'level_text': 'Decides B1-B6 over all emitter sites, VM handlers and narrowing casts of the current source.',
+        'design_ref': 'DESIGN.md section 1, C04',
+        'level_note': 'Trusted: rustc front end + MIR, the extractor, the error-edge convention (calls of error/error_at/error_at_current/'
+                      'compiler_error discard the output).',
+        'technique': 'writer/reader sibling agreement + must-pass + interval abstract interpretation over resolved MIR (rustc_private driver)',
+    },
 }
 
 NOT_APPLICABLE = {
